@@ -44,7 +44,8 @@ def main():
     checks = [pid] + sys.argv[3:]
     wt = f"/tmp/seed/{pid}"
     src = f"{wt}/seeded/{k}"
-    out = f"/verif/seeded/{pid}-{k}"
+    # later rounds of seeding for the same property: SEED_OFFSET=3 stores seeded/<k> as <PID>-<k+3>
+    out = f"/verif/seeded/{pid}-{int(k) + int(os.environ.get('SEED_OFFSET', '0'))}"
     os.makedirs(out, exist_ok=True)
     for f in ("patch.diff", "demo.rs"):
         shutil.copy(f"{src}/{f}", f"{out}/{f}")
